@@ -187,7 +187,7 @@ def run(ctx):
     kl = ctx.body('log::Log::kill_logs')
     if kl:
         # kill_logs unlinks only pool files and the (finished) reader file
-        dl = kl.call_sites('log::Log::drop_log')
+        dl = kl.call_sites('log::Log::drop_log') or lib.sites_reaching(kl, ['log::Log::drop_log'])     # (or through a helper that closes the handle first)
         srcs = set()
         for s in dl:
             srcs |= core.backward_slice(kl, [core.op_place(a) for a in kl.term(s)['a'][1:] if core.op_place(a)]).fields
